@@ -5,8 +5,22 @@
 
    The property predicate is evaluated with `starts_withb` (the property's literal prefix test), the model relation
    with the operator the code really uses (`filter_answerb`, dispatching on Gen/Constants.query_qualname_operator). *)
-From MT Require Export Common.
+From Coq Require Export List Bool Arith NArith String Ascii.
+Export ListNotations.
 From MT Require Export Store.
+Open Scope list_scope.
+
+(* (index, code) of the cases whose verdict is not 0.  Local copy of Check/Common.bad so that this file depends on
+   Model/Store.v only and can be rebuilt on its own against reference constants when a source extractor fails closed. *)
+Section Bad.
+Context {A : Type} (verdict : A -> nat).
+Fixpoint bad (i : nat) (cs : list A) : list (nat * nat) :=
+  match cs with
+  | [] => []
+  | c :: r => let v := verdict c in
+              if Nat.eqb v 0 then bad (S i) r else (i, v) :: bad (S i) r
+  end.
+End Bad.
 
 Inductive obs :=
 | ONone                                   (* the call returned nothing (add, reopen) *)
@@ -126,36 +140,42 @@ Definition visible (subs : list batch) (out : list row) : list batch :=
 Definition visible_mods (subs : list batch) (ms : list string) : list batch :=
   filter (fun b => existsb (fun r => mem_str (r_module r) ms) (serialisable b)) subs.
 
-Definition verdict_c09 (c : scase) : nat :=
-  if negb store_shape_ok then 3 else
-  match code_matcher with
-  | None => 3
-  | Some _ =>
-    match c with
-    | CHist pre steps => hist_verdict (rows_of pre) steps
-    | CReach pre subs order table ok =>
-        if negb (nodup_natb order) then 3 else
-        match pick subs order with
-        | None => 3
-        | Some bs =>
-            if negb ok then 2
-            else if negb (statuses_ok 0 subs order) then 2
-            else if rows_eqb table (rows_of pre ++ rows_of bs) then 0 else 2
-        end
-    | CSnap pre subs m p n out =>
-        let db := rows_of pre ++ rows_of (visible subs out) in
-        if negb (spec_filter_okb db m p n out) then 2
-        else if filter_answerb db m p n out then 0 else 1
-    | CSnapMods pre subs ms =>
-        (* every listed module is backed by a whole visible batch or by pre; nothing of pre is missing *)
-        let lo := rows_of pre in
-        let hi := rows_of pre ++ rows_of (visible_mods subs ms) in
-        let want_lo := filter nonempty (dedup_str (map r_module lo)) in
-        let want_hi := filter nonempty (dedup_str (map r_module hi)) in
-        if nodup_strb ms && forallb (fun m => mem_str m want_hi) ms && forallb (fun m => mem_str m ms) want_lo
-        then 0 else 2
-    end
+(* The property predicate (code 2) is evaluated first and does not depend on the shape of the code: a case whose
+   implementation output breaks the property is reported as such even when the model does not know the code's shape
+   any more (then every other case is 3, "unknown code shape"). *)
+Definition case_verdict (c : scase) : nat :=
+  match c with
+  | CHist pre steps => hist_verdict (rows_of pre) steps
+  | CReach pre subs order table ok =>
+      if negb (nodup_natb order) then 3 else
+      match pick subs order with
+      | None => 3
+      | Some bs =>
+          if negb ok then 2
+          else if negb (statuses_ok 0 subs order) then 2
+          else if rows_eqb table (rows_of pre ++ rows_of bs) then 0 else 2
+      end
+  | CSnap pre subs m p n out =>
+      let db := rows_of pre ++ rows_of (visible subs out) in
+      if negb (spec_filter_okb db m p n out) then 2
+      else if filter_answerb db m p n out then 0 else 1
+  | CSnapMods pre subs ms =>
+      (* every listed module is backed by a whole visible batch or by pre; nothing of pre is missing *)
+      let lo := rows_of pre in
+      let hi := rows_of pre ++ rows_of (visible_mods subs ms) in
+      let want_lo := filter nonempty (dedup_str (map r_module lo)) in
+      let want_hi := filter nonempty (dedup_str (map r_module hi)) in
+      if nodup_strb ms && forallb (fun m => mem_str m want_hi) ms && forallb (fun m => mem_str m ms) want_lo
+      then 0 else 2
   end.
+
+Definition verdict_c09 (c : scase) : nat :=
+  let v := case_verdict c in
+  if Nat.eqb v 2 then 2
+  else match code_matcher with       (* None: unknown operator or store_shape_ok = false *)
+       | None => 3
+       | Some _ => v
+       end.
 
 Definition first_bad (c : scase) : option nat :=
   match c with
